@@ -272,14 +272,20 @@ Vector Spherical_Coordinates(double r, double theta, double phi)
 Vector Spherical_Coordinates(double r, double theta, double phi, const Vector& axis)
 {
 	libphysica::Vector ev = axis.Normalized();
-	if(ev[2] == 1.0 || axis.Norm() == 0.0)
+	// Distance of the unit axis from the z axis. (Not via sqrt(1-ev_z^2), which cancels for axes close to +-z.)
+	double aux = std::hypot(ev[0], ev[1]);
+	if(axis.Norm() == 0.0 || (aux == 0.0 && ev[2] > 0.0))
 		return Spherical_Coordinates(r, theta, phi);
+	else if(aux == 0.0)
+	{
+		// Axis antiparallel to z: Use the right-handed frame (x,-y,-z).
+		std::vector<double> comp = {r * sin(theta) * cos(phi), -r * sin(theta) * sin(phi), -r * cos(theta)};
+		return Vector(comp);
+	}
 	else
 	{
-		double aux = sqrt(1.0 - pow(ev[2], 2.0));
-
 		double cos_theta = cos(theta);
-		double sin_theta = sqrt(1.0 - cos_theta * cos_theta);
+		double sin_theta = fabs(sin(theta));
 		double cos_phi	 = cos(phi);
 		double sin_phi	 = sin(phi);
 
